@@ -632,9 +632,12 @@ def r02d(model, ctx):
     ok = any(pmatch("self.lhs(stmt.lhs)(self.rhs.sign(stmt.rhs))", n) is not None for n in ast.walk(fa))
     if not ok:
         # the same call spelt through locals: the path's result / last call after substitution
-        for p_ in run_paths([b for b in fa.body if not (isinstance(b, ast.Expr) and isinstance(b.value, ast.Constant))]):
+        ps_ = [p_ for p_ in run_paths([b for b in fa.body if not (isinstance(b, ast.Expr) and isinstance(b.value, ast.Constant))])
+               if p_.how != "raise"]
+        ok = bool(ps_)
+        for p_ in ps_:          # on every path
             cands = ([p_.ret] if p_.ret is not None else []) + [e for e in p_.effects if isinstance(e, ast.Call)]
-            ok = ok or any(pmatch("self.lhs(stmt.lhs)(self.rhs.sign(stmt.rhs))", c) is not None for c in cands)
+            ok = ok and any(pmatch("self.lhs(stmt.lhs)(self.rhs.sign(stmt.rhs))", c) is not None for c in cands)
     ctx.check(ok, R, "_StatementCompiler.on_Assign", "lhs-gen(stmt.lhs)(sign(stmt.rhs))",
               "on_Assign must pass self.rhs.sign(stmt.rhs) (the RHS normalised in its own shape) to the LHS generator",
               f"{PYRTL}:{fa.lineno}")
